@@ -7,6 +7,10 @@ BASE = json.load(open("/root/.vp/BASELINE.json"))["cmd"] if Path("/root/.vp/BASE
     "cd /repo && /venv/bin/python -m pytest -ra -q -p no:cacheprovider --timeout=900 --continue-on-collection-errors --junitxml=<file>"
 
 CHECKS = {
+ "C01": dict(cat="exploration", ref="§C01, §3.2",
+    tech="property-based testing (Hypothesis): generated binding models x instances x configurations, round-trip oracle with structural equality; collect-bucket-shrink",
+    text="Generated search over binding models (ModelSpec generator: all documented field kinds and metadata, inheritance with xsi:type, namespaces, name generators, frozen/slots/kw_only), instances and serializer/parser configurations (both writers, both handlers, indentation, declaration, encodings, user prefix maps aimed at the model's namespaces, default-attribute suppression, shared or separate context). Oracle: parse(serialize(x)) structurally equals x under the strictest parser settings. Searched, not proved.",
+    note="Generator confined to the documented fragment (DESIGN §3.2 soundness list); regions covered by recorded findings are excluded by construction and replayed from known_findings.json."),
  "C05": dict(cat="exploration", ref="§C05, §3.5",
     tech="property-based testing (Hypothesis): round-trip + by-construction lexical/value reference model + libxml2 differential; bounded-exhaustive datatype boundaries",
     text="Generated search (thousands of cases per run, 16-way sharded) over Python values, XSD-valid lexical forms built from the grammar, candidate type lists and enumerations; oracles are an independent lexical/value model (exact Fraction arithmetic) and libxml2's XSD validator. Searched, not proved; integer/float datatype boundaries are enumerated completely.",
